@@ -57,7 +57,8 @@ CHECKS = {
              text='For <= 3 (4) tasks/results with every status, result pattern, symbolic verdict, label presence pattern and ARBITRARY label values '
                   '(equality/order only), every ordered label selection: each task/result counted once under its status/verdict, MISSING tasks, '
                   'OK+KO=total=results carrying the labels, nb_missing_labels, oracles and verdicts are decided on every path; plus three-level selections, '
-                  'labels named like reserved keys, and concrete label values of different types (None, text, number).',
+                  'labels named like reserved keys, and concrete label values of different types (None, text, number); the verdict of the task and test '
+                  'summaries is asked again after the report has shown them.',
              design='DESIGN.md section 4 C18'),
  'C01': dict(engine='threadsym', category='model_checking', note=TS_NOTE,
              technique='per-thread automata extracted from the real scheduler code by symbolic execution between synchronisation points; z3 bounded model checking (QF_BV) with the interleaving, task outcomes and clock instants as solver variables; counterexamples replayed on real threads',
